@@ -1,7 +1,10 @@
 import BarterModel.Driver.Common
 import BarterModel.Model.Stale
 /-!
-Line-protocol driver for C09. Ops: `init n` | `bal a t total free` | `full (a t total free)*`
+Line-protocol driver for C09. Ops: `init n` | `init n x (B a total free)*` (CONFIGURATION family: the n instruments are
+spread over x exchanges, 1 ≤ x ≤ min(n, 5), instrument i on exchange i % x; asset labels 0..n-1 = the base assets, n + e =
+usdt ON EXCHANGE e, so n + x assets; every `B a total free` (distinct `a`) is an INITIAL balance handed to the state builder,
+which stamps it with the engine start time: a balance message delivered at exchange time 0) | `bal a t total free` | `full (a t total free)*`
 | `trade i t price [B|S amount]` | `l1 i te tl bp ba ap aa` (a side written `-1 -1` is ABSENT: one-sided top of book; the
 harness prints it back as `-1,-1`, so the register model carries it as an ordinary value) | `l1e i te tl` (empty top of book)
 | `mkt i t <candle|liq|booksnap|bookupd> price` (a market event of a kind that feeds no register) | `ord i c id t filled` (open report, quantity 10)
@@ -19,6 +22,26 @@ structure St where
   eng : Eng
   orders : Engine
   n : Nat
+  /-- number of asset labels: `n + 1` after `init n`, `n + x` after `init n x …` -/
+  na : Nat := n + 1
+
+/-- `init n x (B a total free)*`: `some (n, x, initial balances)` when well formed (1 ≤ x ≤ min(n,5), assets in range and distinct) -/
+def parseInitBals : List String → Option (List (Nat × Bal))
+  | [] => some []
+  | "B" :: a :: tot :: free :: rest =>
+    match a.toNat?, parseRat? tot, parseRat? free, parseInitBals rest with
+    | some a, some tot, some free, some r => some ((a, (tot, free)) :: r)
+    | _, _, _, _ => none
+  | _ => none
+
+def parseInitCfg : List String → Option (Nat × Nat × List (Nat × Bal))
+  | n :: x :: rest =>
+    match n.toNat?, x.toNat?, parseInitBals rest with
+    | some n, some x, some bs =>
+      let as := bs.map (·.1)
+      if 1 ≤ x && x ≤ 5 && x ≤ n && as.all (· < n + x) && as.eraseDups.length == as.length then some (n, x, bs) else none
+    | _, _, _ => none
+  | _ => none
 
 def fmtBal (b : Bal) : String := fmtRat b.1 ++ "," ++ fmtRat b.2
 /-- an EMPTY top of book (both sides absent: a legal message for an emptied / halted book) is carried
@@ -140,29 +163,36 @@ def parseOp : List String → Option POp
   | "acct" :: rest => (parseAcctItems rest).map fun (bs, os) => .acct bs os
   | _ => none
 
-def POp.inRange (n : Nat) : POp → Bool
-  | .bal items => items.all (fun am => am.1 < n + 1)
+def POp.inRange (n na : Nat) : POp → Bool
+  | .bal items => items.all (fun am => am.1 < na)
   | .trade i _ _ => i < n
   | .l1 i _ _ => i < n
   | .ord i _ _ => i < n
   | .cancel i _ => i < n
   | .ordx i _ _ _ => i < n
-  | .acct bals ords => bals.all (fun am => am.1 < n + 1) && ords.all (fun is => is.1 < n)
+  | .acct bals ords => bals.all (fun am => am.1 < na) && ords.all (fun is => is.1 < n)
   | .other i => i < n
 
 def model : Drv St where
-  init := ⟨Eng.init 0 0, [], 0⟩
+  init := ⟨Eng.init 0 0, [], 0, 1⟩
   step s toks :=
     match toks with
     | ["init", n] =>
       match n.toNat? with
-      | some n => let s' : St := ⟨Eng.init (n + 1) n, List.replicate n [], n⟩; (s', obs s')
+      | some n => let s' : St := ⟨Eng.init (n + 1) n, List.replicate n [], n, n + 1⟩; (s', obs s')
+      | none => (s, ["bad-op"])
+    -- the builder applies every initial balance as a balance snapshot stamped with the engine start time (0)
+    | "init" :: n :: x :: rest =>
+      match parseInitCfg (n :: x :: rest) with
+      | some (n, x, bs) =>
+        let eng := bs.foldl (fun (e : Eng) ab => e.fullSnapshot [(ab.1, ((0 : Int), ab.2))]) (Eng.init (n + x) n)
+        let s' : St := ⟨eng, List.replicate n [], n, n + x⟩; (s', obs s')
       | none => (s, ["bad-op"])
     | _ =>
       match parseOp toks with
       | none => (s, ["bad-op"])
       | some op =>
-        if !op.inRange s.n then (s, ["panic"]) else
+        if !op.inRange s.n s.na then (s, ["panic"]) else
         let s' : St := match op with
           | .bal items => { s with eng := s.eng.fullSnapshot items }
           | .trade i t p => { s with eng := s.eng.trade i t p }
@@ -179,6 +209,7 @@ def model : Drv St where
 /-- spec state: the delivered messages per item, in delivery order -/
 structure SpecSt where
   n : Nat
+  na : Nat
   bals : List (List (Msg Bal))
   trades : List (List (Msg Rat))
   l1s : List (List (Msg L1))
@@ -247,21 +278,32 @@ def specObs (s : SpecSt) : List String :=
       (((s.fin[i]?.getD []).filter (·.1 == c)).map (·.2))).flatten)
 
 def spec : Drv SpecSt where
-  init := ⟨0, [], [], [], [], [], []⟩
+  init := ⟨0, 0, [], [], [], [], [], []⟩
   step s toks :=
     match toks with
     | ["init", n] =>
       match n.toNat? with
       | some n =>
-        let s' : SpecSt := ⟨n, List.replicate (n + 1) [], List.replicate n [], List.replicate n [],
+        let s' : SpecSt := ⟨n, n + 1, List.replicate (n + 1) [], List.replicate n [], List.replicate n [],
           List.replicate n false, List.replicate n [], List.replicate n []⟩
+        (s', specObs s')
+      | none => (s, ["bad-op"])
+    -- an initial balance is a balance delivered with the engine start time (exchange time 0): from then on
+    -- the register of that asset (on ITS exchange: one register per (exchange, asset)) carries the greatest
+    -- timestamp delivered, the initial one included; the other assets start with nothing delivered
+    | "init" :: n :: x :: rest =>
+      match parseInitCfg (n :: x :: rest) with
+      | some (n, x, bs) =>
+        let s0 : SpecSt := ⟨n, n + x, List.replicate (n + x) [], List.replicate n [], List.replicate n [],
+          List.replicate n false, List.replicate n [], List.replicate n []⟩
+        let s' : SpecSt := { s0 with bals := bs.foldl (fun b ab => pushAt b ab.1 ((0 : Int), ab.2)) s0.bals }
         (s', specObs s')
       | none => (s, ["bad-op"])
     | _ =>
       match parseOp toks with
       | none => (s, ["bad-op"])
       | some op =>
-        if !op.inRange s.n then (s, ["panic"]) else
+        if !op.inRange s.n s.na then (s, ["panic"]) else
         let s' : SpecSt := match op with
           | .bal items => { s with bals := items.foldl (fun b am => pushAt b am.1 am.2) s.bals }
           | .trade i t p => { s with trades := pushAt s.trades i (t, p) }
